@@ -207,6 +207,10 @@ func script(logPath string, b *Beh) string {
 		case 1:
 			return s + "echo '" + validConfig + "'\nexit 3\n" // valid output, failing run
 		default:
+			if b.Variant%10 == 7 {
+				// a complete valid configuration on stdout, then death by a signal: a failed run all the same
+				return s + "echo '" + validConfig + "'\nkill -9 $$\n"
+			}
 			return s + "echo oops >&2\nkill -9 $$\n"
 		}
 	case 0:
